@@ -925,6 +925,11 @@ func (vc *VC) callByContract(fr *frame, st *State, ct *Contract, fo *types.Func,
 		out = TupleV(rvals)
 	}
 	for _, en := range ct.Ensures {
+		if en.Label == "local" {
+			// `ensures [local] P`: proved against the body, not exported to callers (keeps the callers'
+			// contexts small when they do not need P; assuming less is sound)
+			continue
+		}
 		vc.assume(st, mkEnv(st, old, old.alloc).evalBool(en.Expr))
 	}
 	if fr != nil {
